@@ -242,6 +242,29 @@ _big_lib = Contract(
                      {'names': ['acme', '_vendor', 'pandas', 'compat']}, {'names': ['mymod']}],
 )
 
+_ANC = 'name_or_none.search_ancestor("funcdef", "classdef", "lambdef")'
+_header_rule = Contract(
+    id='C03._get_global_filters_for_name', prop='C03',
+    clause='header rule: a name in the header of a def / class / lambda (before its colon: decorators are outside, '
+           'defaults, annotations and base classes inside) is looked up as if it stood at the START of that definition - '
+           'Python evaluates them in the enclosing scope before the name is bound; every other name keeps its position',
+    file='jedi/inference/context.py', qualname='_get_global_filters_for_name',
+    params={'context': Opt(Obj('Ctx')), 'name_or_none': Opt(_PN), 'position': Opt(POS)},
+    families=['Ctx', 'PNode', 'FilterObj'], ret=Seq(Obj('FilterObj')),
+    ensures=[
+        'implies(name_or_none is None, result == get_global_filters(context, position, None))',
+        'implies(name_or_none is not None and %s is None, result == get_global_filters(context, position, name_or_none))' % _ANC,
+        'implies(name_or_none is not None and %s is not None and position is not None and '
+        'the(position) < the(%s).children[-2].start_pos, '
+        'result == get_global_filters(context, the(%s).start_pos, name_or_none))' % (_ANC, _ANC, _ANC),
+        'implies(name_or_none is not None and %s is not None and (position is None or '
+        'not (the(position) < the(%s).children[-2].start_pos)), '
+        'result == get_global_filters(context, position, name_or_none))' % (_ANC, _ANC),
+    ],
+    notes='get_global_filters (under contract above) is an abstract pure callee here; a definition node has at least '
+          'two children, the last but one being its colon (parso shape, stated on search_ancestor)',
+)
+
 FAMILIES = [
     Family('CtxBig', methods={'get_root_context': FnSpec('Context.get_root_context', ret=Obj('RootBig'), pure=True)}),
     Family('RootBig', attrs={'string_names': Opt(Seq(STR))}),
@@ -265,13 +288,21 @@ FAMILIES = [
     Family('FilterObj'),
 ]
 
-CONTRACTS = [_is_scope] + PARENT_SCOPE + [_abs_filter, _global_filter, _reachable, _check_flows] + _get_global_filters + [_big_lib]
+CONTRACTS = [_is_scope] + PARENT_SCOPE + [_abs_filter, _global_filter, _reachable, _check_flows] + _get_global_filters + [_big_lib, _header_rule]
 
 
 def register(reg):
     from pyvc.values import MNS, MCls, SV, MFn
     pn = reg.families['PNode']
     pn.methods['get_test_nodes'] = FnSpec('PNode.get_test_nodes', ret=Seq(_PN), pure=True, assumed=True)
+    pn.methods['search_ancestor'] = FnSpec(
+        'PNode.search_ancestor', params=[('a', STR), ('b', STR), ('c', STR)], ret=Opt(_PN), pure=True, assumed=True,
+        ensures=['result is None or (not the(result).is_leaf and len(the(result).children) >= 2 and '
+                 'the(result).type in (a, b, c))'],
+        note='nearest ancestor of one of the given types, None at the root; definition nodes end with colon + body')
+    reg.names['get_global_filters'] = FnSpec(
+        'get_global_filters', params=[('context', Opt(Obj('Ctx'))), ('until_position', Opt(POS)), ('origin_scope', Opt(_PN))],
+        ret=Seq(Obj('FilterObj')), pure=True, assumed=False, note='C03.get_global_filters')
     reg.names['tree'] = MNS('tree', {'Flow': MCls('Flow')})
     reg.names['Flow'] = MCls('Flow')
     reg.names['BaseFunctionExecutionContext'] = MCls('BaseFunctionExecutionContext')
